@@ -355,6 +355,74 @@ example : refSelection cmpVal dNames [.cols [['f'], ['i']], .cols [['i'], ['f']]
     = some [[.num 48, .num 8]] := by decide
 end DerivedExamples
 
+section DerivedVal
+open Pydap.Seq Pydap.SeqClient Pydap.Derive Pydap.TableVal
+open Pydap.IterData (Op Item RCond rsplitHead refCond cellOf)
+
+/-- **The same on the value domain of the property** (numbers on the dyadic grid, ASCII strings; `encVal` =
+    `pydap.lib.encode`, `litVal` = `ast.literal_eval`, `cmpVal` = Python's comparison, all character level): the
+    conditions on encoded values are lemmas (`Proofs/SeqEnc.lean`); what remains is about names, the chain and the
+    combined range. -/
+theorem C14_derived_reads_reference_val (id : Name) (hidc : ∃ c r, id = c :: r ∧ c.isAlpha = true)
+    (names : List Name) (hnd : names.Nodup) (hid : id ∉ names)
+    (hidok : NameOk id) (hnames : ∀ k ∈ names, NameOk k)
+    (rows : List (List Val)) (hrows : ∀ r ∈ rows, r.length = names.length)
+    (hlen : (rows.length : Int) ≤ MAXSIZE) (bk : Backend)
+    (h : Heap) (w : WF h) (r : Nat) (base : Name) (σ : Sess) (tm : Nat)
+    (hs : specAt h r = some (specOf (openTmpl id names ⟨none, []⟩) (openProxy base σ tm ⟨none, []⟩)))
+    (l : List (List Ev × DStep Val))
+    (hok : ChainOk encVal names false (l.map (·.2)))
+    (hr : RangeOk (((l.map (·.2)).map toCOp).foldl (accStep encVal id) (openAcc id names ⟨none, []⟩)).sl) :
+    let d := deriveAmid h r (l.map fun x => (x.1, keyOfStep encVal [id] (openProxy base σ tm ⟨none, []⟩) x.2))
+    ∃ q out, objQuery d.1 d.2 = some q ∧
+      refSelection cmpVal names (l.map (·.2)) rows = some out ∧
+      serveQuery cmpVal encVal litVal bk id names rows q = some (.ok (out.map Item.row)) := by
+  have hst : ∀ v ch r, encVal v = ch :: r → ch ≠ '=' ∧ ch ≠ '~' := by
+    intro v ch r e
+    obtain ⟨c, r', e', hc⟩ := encVal_head v
+    rw [e] at e'
+    simp only [List.cons.injEq] at e'
+    obtain ⟨rfl, _⟩ := e'
+    rcases hc with rfl | rfl | hd
+    · exact ⟨by decide, by decide⟩
+    · exact ⟨by decide, by decide⟩
+    · constructor <;> (intro e2; subst e2; exact absurd hd (by decide))
+  exact C14_derived_reads_reference cmpVal encVal litVal litVal_encVal id (encVal_head_ne id hidc) hst names hnd hid hidok
+    hnames rows hrows hlen bk h w r base σ tm hs l hok hr
+
+/-- the theorem applied: the example chain on a heap opened by `open_url`, every derivation after reads of other objects -/
+def dHeap : Heap := openHeap ['u'] [] (some 7) ['s'] dNames [(['a'], [3], false)]
+example : ∃ q out,
+    objQuery (deriveAmid dHeap 0 (dChain.map fun st => ([Ev.iter 0, .aget 1 [Idx.int 0]],
+        keyOfStep encVal [['s']] (openProxy ['u'] (some 7) 0 ⟨none, []⟩) st))).1
+      (deriveAmid dHeap 0 (dChain.map fun st => ([Ev.iter 0, .aget 1 [Idx.int 0]],
+        keyOfStep encVal [['s']] (openProxy ['u'] (some 7) 0 ⟨none, []⟩) st))).2 = some q ∧
+    refSelection cmpVal dNames dChain dRows = some out ∧
+    serveQuery cmpVal encVal litVal .csv ['s'] dNames dRows q = some (.ok (out.map Item.row)) := by
+  have hn : ∀ k ∈ dNames, NameOk k := by
+    intro k hk
+    simp [dNames] at hk
+    rcases hk with rfl | rfl | rfl <;> exact ⟨by decide, by decide⟩
+  have := C14_derived_reads_reference_val ['s'] ⟨'s', [], rfl, by decide⟩ dNames (by decide) (by decide)
+    ⟨by decide, by decide⟩ hn dRows (by decide) (by decide) .csv dHeap
+    (by intro p hp; simp [dHeap, openHeap] at hp; subst hp; decide) 0 ['u'] (some 7) 0 (by decide)
+    (dChain.map fun st => ([Ev.iter 0, .aget 1 [Idx.int 0]], st))
+    (by
+      simp only [List.map_map, Function.comp_def, List.map_id']
+      refine ⟨⟨rfl, by decide, by decide, by decide⟩, ⟨by decide, by decide, by decide⟩,
+        ⟨rfl, by decide, by decide, by decide⟩, ⟨by decide, by decide, by decide⟩, ⟨rfl, by decide⟩, ?_, trivial⟩
+      intro x hx
+      simp at hx
+      subst hx
+      exact ⟨by decide, by decide⟩)
+    (by
+      simp only [List.map_map, Function.comp_def, List.map_id']
+      right
+      exact ⟨2, 6, 2, by decide, by decide, by decide, by decide⟩)
+  simpa [List.map_map, Function.comp_def] using this
+
+end DerivedVal
+
 open MiniPy in
 /-- **the whole of `SequenceProxy._projection`**: for every proxy the interpreted body (all three branches: selected
     columns, single column — fix 3339666 —, whole sequence) returns the model's `projFull`, the projection inside the
